@@ -471,6 +471,9 @@ func (s *session) visitNode(sprint *sprint, run flows.Run, node flows.Node, trig
 
 			// check if this action has errored the run
 			if run.Status() == flows.RunStatusFailed {
+				// a failed run can't enter a sub-flow, so forget any flow pushed by an earlier action on this node
+				s.pushedFlow = nil
+
 				return step, nil, "", nil
 			}
 		}
